@@ -45,6 +45,60 @@ def _work(job):
     return gname, obs, info, time.time() - t0
 
 
+def _child(job, conn):
+    try:
+        res = _work(job)
+    except BaseException:
+        res = (job[1], [dict(name=job[1] + '/<group>', status='error', backend='traceback', secs=0, kind='engine',
+                             reason=traceback.format_exc()[-2000:])], {}, 0.0)
+    try:
+        conn.send(res)
+    finally:
+        conn.close()
+        os._exit(0)
+
+
+def _run_jobs(jobs, procs, group_timeout):
+    """one forked process per obligation group, at most `procs` at a time, each under a wall-clock limit;
+    a group that exceeds it is killed and reported undecided (never a violation)"""
+    ctx = multiprocessing.get_context('fork')
+    pending = list(jobs)
+    running = {}
+    while pending or running:
+        while pending and len(running) < max(1, procs):
+            job = pending.pop(0)
+            rc, wc = ctx.Pipe(duplex=False)
+            p = ctx.Process(target=_child, args=(job, wc))
+            p.start()
+            wc.close()
+            running[p.pid] = (p, job, time.time(), rc)
+        progressed = False
+        for pid, (p, job, t0, rc) in list(running.items()):
+            res = None
+            try:
+                if rc.poll(0):
+                    res = rc.recv()
+            except (EOFError, OSError):
+                res = (job[1], [dict(name=job[1] + '/<group>', status='error', backend='worker-died', secs=0,
+                                     kind='engine', reason='worker process died')], {}, time.time() - t0)
+            if res is None and not p.is_alive():
+                res = (job[1], [dict(name=job[1] + '/<group>', status='error', backend='worker-died', secs=0,
+                                     kind='engine', reason='worker process exited with %r' % p.exitcode)], {}, time.time() - t0)
+            if res is None and time.time() - t0 > group_timeout:
+                p.kill()
+                res = (job[1], [dict(name=job[1] + '/<group>', status='unknown', backend='group-timeout', secs=0,
+                                     kind='engine', reason='group exceeded %.0f s wall-clock' % group_timeout)], {},
+                       time.time() - t0)
+            if res is not None:
+                p.join(5)
+                rc.close()
+                del running[pid]
+                progressed = True
+                yield res
+        if not progressed:
+            time.sleep(0.02)
+
+
 def load_known():
     p = os.path.join(ROOT, 'known_findings.json')
     if not os.path.exists(p):
@@ -73,22 +127,9 @@ def run_check(prop_id, tier, seed, procs=None, only=None):
     results = {}
     infos = {}
     secs = {}
-    if procs <= 1 or len(jobs) <= 1:
-        for j in jobs:
-            g, obs, info, dt = _work(j)
-            results[g] = obs; infos[g] = info; secs[g] = dt
-    else:
-        ctx = multiprocessing.get_context('fork')
-        with cf.ProcessPoolExecutor(max_workers=min(procs, len(jobs)), mp_context=ctx) as ex:
-            futs = {ex.submit(_work, j): j for j in jobs}
-            for fu in cf.as_completed(futs):
-                j = futs[fu]
-                try:
-                    g, obs, info, dt = fu.result()
-                except Exception as e:       # worker died
-                    g, obs, info, dt = j[1], [dict(name=j[1] + '/<group>', status='error', backend='worker-died',
-                                                   secs=0, kind='engine', reason=repr(e))], {}, 0.0
-                results[g] = obs; infos[g] = info; secs[g] = dt
+    gto = float(os.environ.get('NDVC_GROUP_TIMEOUT_S', '300' if tier == 'quick' else '2400'))
+    for g, obs, info, dt in _run_jobs(jobs, procs, gto):
+        results[g] = obs; infos[g] = info; secs[g] = dt
 
     import shutil
     if not only:
